@@ -643,13 +643,19 @@ def upd_pg(R: B6, W: B6, L: LT, N: NT, C: CT) -> bool:
 
 
 # ---------------------------------------------------------------------------------------------- K3: tracking step
-def track_step(rbits0: int, wbits0: int, i: int, kind: int, val: int) -> bool:
+def track_step(i: int, kind: int, r_i: bool, w_i: bool, rest_r: bool, rest_w: bool, val: int) -> bool:
     """
-    pre: 0 <= rbits0 < 64 and 0 <= wbits0 < 64 and 0 <= i < 6 and 0 <= kind < 3
-    pre: rbits0 & 8 == 0
+    pre: 0 <= i < 6 and 0 <= kind < 3
     pre: -2 ** 31 <= val < 2 ** 31
     post: _
     """
+    # masks before the step: the bits of attribute i are (r_i, w_i); the bits of all other attributes are all clear or all
+    # set (rest_r / rest_w), so a step that set or cleared a foreign bit would show.  (One symbolic int per mask is not
+    # usable: `int | int` on a symbolic int goes through z3 int2bv and does not terminate.)
+    _e = ENVS['sqlite']
+    _n = ATTRS[i]
+    rbits0 = (_e.nvbit[_n] if r_i else 0) | (sum(_e.nvbit[m] for m in ATTRS if m != _n) if rest_r else 0)
+    wbits0 = (_e.bit[_n] if w_i else 0) | (sum(_e.bit[m] for m in ATTRS if m != _n) if rest_w else 0)
     from pony.orm import db_session, rollback
     e = ENVS['sqlite']
     _reset(e)
